@@ -239,6 +239,11 @@ class KeySet(object):
         k.add_subkey(ek, usage={KeyFlags.EncryptCommunications, KeyFlags.EncryptStorage}, created=T0)
         o = pgpy.PGPKey.new(PubKeyAlgorithm.EdDSA, EllipticCurveOID.Ed25519, created=T0)
         o.add_uid(pgpy.PGPUID.new('Other', email='o@y'), usage={KeyFlags.Certify, KeyFlags.Sign}, created=T0, **PREFS)
+        # a third key whose only user id is the EMPTY one (a legitimate subject: its hashed form is B4 00 00 00 00 and nothing else)
+        e = pgpy.PGPKey.new(PubKeyAlgorithm.EdDSA, EllipticCurveOID.Ed25519, created=T0)
+        e.add_uid(pgpy.PGPUID.new(''), usage={KeyFlags.Certify, KeyFlags.Sign}, created=T0, **PREFS)
+        self.e, self.epub = e, e.pubkey
+        self.eprim = [b for t, b, _ in indep.packets(bytes(self.epub)) if t == 6][0]
         self.k, self.sk, self.ek, self.o = k, sk, ek, o
         self.pub = k.pubkey
         self.opub = o.pubkey
@@ -326,6 +331,8 @@ def subject(ks, sname):
         return dict(key=ks.prim, subkey=ks.sub_enc_body), ks.ek, ks.pek
     if kind == 'otheruid':        # the other key's uid, certified by the key under test (third party)
         return dict(key=ks.oprim, uid=OTHERB), ks.o.userids[0], ks.opub.userids[0]
+    if kind == 'emptyuid':        # the empty user id of a third key, certified by the key under test
+        return dict(key=ks.eprim, uid=b''), ks.e.userids[0], ks.epub.userids[0]
     if kind == 'otherkey':
         return dict(key=ks.oprim), ks.o, ks.opub
     raise ValueError(sname)
@@ -755,6 +762,8 @@ def forward_cases(tier, rnd):
             add(op='certify', subject=sn, level=lvl, opts=dict(base))
             add(op='certify', subject=sn, level=lvl, by='other', opts=dict(base, trust=[1, 60], regex=REGEXES[0], exportable=False))
         add(op='certify', subject='otheruid', level=lvl, opts=dict(base))
+    add(op='certify', subject='emptyuid', level=0x10, opts=dict(base))
+    add(op='revoke', subject='emptyuid', opts=dict(base))
     for n in SELFCERT_OPTS:
         for v in opt_values(n):
             add(op='certify', subject='uid1', level=0x13, opts=dict(base, **{n: v}))
